@@ -11,6 +11,7 @@ The converse is not a theorem of the code: maximal-munch lexing loses strings wh
 needs a shorter lexeme than the lexer's greedy choice (documented behaviour of llguidance).
 -/
 import LlgVerif.Proofs.Lexer
+import LlgVerif.Props.C05
 namespace LlgVerif
 
 /-- **soundness of the byte-level engine**: for every compiled grammar, lexeme table with checked
@@ -43,6 +44,31 @@ theorem c05_lexer_state_viable (C : Lx.Cfg) (hw : C.wf = true) (w : List B) (st 
     (hrun : Lx.run C (Lx.init C) w = some st) :
     ∃ u, u <:+ w ∧ ∀ e ∈ st.ls, ∃ v, Rx.lang (C.lx e.1).rx (u ++ v) :=
   Lx.state_viable C hw w st hrun
+
+/-- **valid-prefix property of the byte-level engine** (the lexer half of "no dead ends", C03): in
+every reachable state, every entry of the lexer state other than the skip lexeme is viable at both
+levels — the bytes read since the lexeme started extend to a match of the lexeme's regex, and the
+lexeme sets scanned so far followed by this lexeme extend to a lexeme sequence the compiled grammar
+accepts (for grammars whose right-hand-side symbols are productive, `CG.allProductive`, evaluated on
+every dump).  So no allowed byte leads the lexer into a lexeme the parser could not use. -/
+theorem c05_bytes_prefix_viable (C : Lx.Cfg) (hw : C.wf = true) (hg : C.g.wf = true)
+    (hp : C.g.allProductive = true) (w : List B) (st : Lx.St)
+    (hrun : Lx.run C (Lx.init C) w = some st) :
+    ∃ u, u <:+ w ∧ ∀ e ∈ st.ls, some e.1 ≠ C.skipId →
+      (∃ vb, Rx.lang (C.lx e.1).rx (u ++ vb)) ∧ (∃ vs, Ey.Accepts C.g (st.lexs ++ [e.1] :: vs)) := by
+  obtain ⟨u, hu, hv, hrows, hal⟩ := Lx.state_summary C hw w st hrun
+  refine ⟨u, hu, fun e he hne => ⟨hv e he, ?_⟩⟩
+  rcases hal e he with h | h
+  · unfold Ey.allowedLexemes at h
+    rw [List.mem_filterMap] at h
+    obtain ⟨it, hit, hl⟩ := h
+    have hlast : Lx.lastRow st.rows = (Ey.runRows C.g st.lexs).getD st.lexs.length [] := by
+      unfold Lx.lastRow
+      rw [hrows, Ey.runRows_len]
+      simp
+    rw [hlast] at hit
+    exact c05_earley_allowed_lexeme_viable C.g hg hp st.lexs it e.1 hit hl
+  · exact absurd h hne
 
 /-! non-vacuity: `start: A B`, `A: /a+/`, `B: "b"` (lexeme 0 is an unused skip lexeme with an empty
 regex); `aab` is accepted by the model, `aa` and `ba` are not -/
